@@ -1,4 +1,5 @@
 pub mod atomics;
+pub mod bits;
 pub mod builder;
 pub mod lenders;
 pub mod sigstore;
@@ -11,6 +12,7 @@ macro_rules! with_world {
             "atomics" => $f::<$crate::worlds::atomics::AtomicsWorld>($($arg),*),
             "lenders" => $f::<$crate::worlds::lenders::LendersWorld>($($arg),*),
             "sigstore" => $f::<$crate::worlds::sigstore::SigstoreWorld>($($arg),*),
+            "bits" => $f::<$crate::worlds::bits::BitsWorld>($($arg),*),
             "builder" => $f::<$crate::worlds::builder::BuilderWorld>($($arg),*),
             other => panic!("unknown world {other}"),
         }
